@@ -141,6 +141,15 @@ def main():
     for x in cross:
         inputs.append(("cross:%s@%s%s" % (x["what"], x["site"], "!" if x["must_accept"] else ""), "model", x["text"]))
 
+    # ---- (5) Literals.tla: every place that takes an integer literal x values at and beyond the limits of the integer types
+    flit = os.path.join(wd, "literals.ndjson")
+    tlc_eval("Literals", timeout=600, workdir=scratch("verif-c10-tlcl-"), env={"VERIF_OUT": flit})
+    lits = [json.loads(l) for l in open(flit) if l.strip()]
+    c.cov["tlc_literal_cases"] = len(lits)
+    c.cov["tlc_literal_controls"] = sum(1 for x in lits if x["control"])
+    for x in lits:
+        inputs.append(("literal:%s@%s%s" % (x["lit"], x["site"], "!" if x["control"] else ""), "model", x["text"]))
+
     # vacuity guard: the uncorrupted base documents are accepted
     for i, (kind, t) in enumerate(DOCS):
         root = os.path.join(sc, "base%d" % i)
@@ -173,8 +182,10 @@ def main():
             text = data.decode("utf-8", "replace") if isinstance(data, bytes) else data
             replay = {"file": "m.yml" if kind == "model" else "_package.yml", "content": text[:3000], "command": cmd, "observed": o}
             cls = name.split(":")[0] + ":" + (name.split(":")[1] if ":" in name else "") + ":" + kind
-            if name.startswith("cross:") and name.endswith("!") and o["exit"] != 0:
-                raise Inconclusive("Cross.tla control %s is not accepted by yardl (the cross cases would be vacuous): %s" % (name, o["stderr"][-400:]))
+            if name.startswith(("cross:", "literal:")) and name.endswith("!") and o["exit"] != 0 and not o["panic"] and o["exit"] == 1:
+                raise Inconclusive("control %s is not accepted by yardl (the family would be vacuous): %s" % (name, o["stderr"][-400:]))
+            if name.startswith("literal:"):
+                cls = "literal:" + name.split("@")[1].rstrip("!") + ":" + kind
             if o["exit"] == -9:
                 c.violation("C10:%s:hang" % cls, "`yardl %s` did not terminate within 20 s" % cmd, replay)
             elif o["panic"] or o["exit"] not in (0, 1):
@@ -193,7 +204,7 @@ def main():
                   "(kind swaps incl. odd-length flow sequences under every tag, missing/duplicate/unknown keys, nulls, 13 wrong tags, 30 odd scalars "
                   "incl. truncated type and expression syntax, deep nesting); plus seeded byte-level mutations and fixed pathological files; each "
                   "input is given to `yardl validate` and `yardl generate`; Cross.tla: every type expression that breaks one language rule (and valid controls) x every use site of a type, and every computed-field expression form x every field type shape; allowed outcomes: exit 0, or exit 1 with an error naming a file; "
-                  "distinct = inputs")
+                  "; Literals.tla: every place of a model that takes an integer literal (dimension index, subscripts, operands, casts, vector lengths, array extents and ranks, enum and flags values per base type) x literals at and beyond the limits of the 8/16/32/64-bit types; distinct = inputs")
 
 
 main_wrapper(main)
